@@ -361,7 +361,7 @@ def driver(cinco, desc, seed, n_traces, length):
                     ev = {"op": "COp", "n": n, "p": list(path), "k": key, "o": o}
                 if ev.get("v", {}).get("t") == "cfgobj":
                     # a ready-made Config of the sub-schema, in its default state; the spec needs its state
-                    sub = w.schema[".".join(ev["p"] + [ev["k"]])]
+                    sub = cfgadapter.schema_field(cinco, w.schema, ev["p"] + [ev["k"]])
                     ev["v"] = {"t": "cfgobj", "c": cfgadapter.project_cfg(cinco, sub())}
                 try:
                     res = w.step(ev)
